@@ -242,6 +242,30 @@ theorem open_iff_some_key_has_password {Pw MK : Type} [DecidableEq Pw] (keys : L
           rintro ⟨s, m, hm⟩
           exact hno ⟨s, m, List.mem_cons_of_mem _ hm⟩
 
+/-- (9, position) The search has no bound on the number of key files and does not depend on where the matching file is
+listed: whatever well-formed key files are listed BEFORE it (any number — 20, 21, 10 000) and whatever comes after it,
+the password of a key file opens, and what opens wraps a master key of a file with that password.  (Seed C04-4 —
+`find_key_in_backend` tries only the first 20 listed files — contradicts this for `before.length ≥ 20`; the `keys`
+channel plants 21–40 key files and opens with every one of the passwords.) -/
+theorem password_opens_at_any_listing_position {Pw MK : Type} [DecidableEq Pw] (before after : List (KeyEntry Pw MK))
+    (hb : AllGood before) (salt : Nat) (pw : Pw) (m : MK) :
+    ∃ m' salt', findKey (before ++ .good salt pw m :: after) pw = .ok m' ∧
+      .good salt' pw m' ∈ before ++ [.good salt pw m] := by
+  induction before with
+  | nil => exact ⟨m, salt, by simp [findKey, tryKey], by simp⟩
+  | cons e es ih =>
+    have hg' : AllGood es := fun x hx => hb x (List.mem_cons_of_mem _ hx)
+    obtain ⟨m', s', h1, h2⟩ := ih hg'
+    cases e with
+    | malformed => exact absurd rfl (hb _ (List.mem_cons_self ..))
+    | good s p m0 =>
+      by_cases hp : p = pw
+      · subst hp
+        exact ⟨m0, s, by simp [findKey, tryKey], by simp⟩
+      · refine ⟨m', s', ?_, ?_⟩
+        · simpa [findKey, tryKey, hp] using h1
+        · exact List.mem_cons_of_mem _ h2
+
 /-- (9') For all sequences of key add / remove starting from the initial key: every key file wraps the one master key
 (so any password that opens, opens the same repository), and the key table stays well-formed. -/
 theorem key_history_wraps_master {Pw MK : Type} (master : MK) (keys : List (KeyEntry Pw MK))
